@@ -33,10 +33,13 @@ Definition val_eqb (a b : val) : bool :=
   | _, _ => false
   end.
 
-Definition is_list_name (n : name) : bool := Nat.leb 2 n.
+Definition is_list_name (n : name) : bool := Nat.leb 2 n && Nat.leb n 3.
+(* names >= 4: an `Any` trait (accepts everything; never observed, never a source: it only serves as a
+   partner that takes whatever it is given) *)
+Definition is_any_name (n : name) : bool := Nat.leb 4 n.
 (* Int accepts ints, List(Int) accepts lists of ints: anything else is a TraitError *)
 Definition kind_ok (n : name) (v : val) : bool :=
-  match v with VS _ => negb (is_list_name n) | VL _ => is_list_name n end.
+  is_any_name n || match v with VS _ => negb (is_list_name n) | VL _ => is_list_name n end.
 
 Record ostate := mkO {
   o_alive : bool;
@@ -242,7 +245,7 @@ Definition count_notes (st : state) (o : oid) (n : name) : Z :=
 Definition names4 : list name := [0; 1; 2; 3]%nat.
 
 Definition snapshot (st : state) : list (list val) :=
-  map (fun ob => if o_alive ob then o_vals ob else []) (objs st).
+  map (fun ob => if o_alive ob then firstn 4 (o_vals ob) else []) (objs st).
 Definition counts (st : state) : list (list Z) :=
   map (fun o => if o_alive (get_obj st o) then map (count_notes st o) names4 else [])
       (seq 0 (length (objs st))).
